@@ -4,7 +4,8 @@
 From VF Require Import PQ BytesProofs PQProofs.
 From Coq Require Import Lia.
 
-Definition okev (e : list Z) : Prop := (0 < length e)%nat /\ Z.of_nat (length e) < 256 ^ Z.of_nat hdr_len.
+(* an event the 4-byte size field can describe; events WITHOUT contents (Writer.Next without Write) included *)
+Definition okev (e : list Z) : Prop := Z.of_nat (length e) < 256 ^ Z.of_nat hdr_len.
 
 Lemma layout_from_cons P pos e rest :
   layout_from P pos (e :: rest) =
@@ -33,7 +34,7 @@ Inductive Rsim (P : nat) (stream : list Z) (N : nat) : rst -> sst -> Prop :=
     Rsim P stream N {| r_pos := length pre; r_left := None; r_id := id |} {| s_rest := rest; s_cur := None |}
 | R_inside pre b rest post id :
     stream = pre ++ b ++ layout_from P (length pre + length b) rest ++ post -> (S id + length rest = N)%nat ->
-    b <> [] -> Forall okev rest ->
+    Forall okev rest ->
     Rsim P stream N {| r_pos := length pre; r_left := Some (length b); r_id := id |} {| s_rest := rest; s_cur := Some b |}.
 
 (* Next at the start of the frame of the next event (or at the end) *)
@@ -53,7 +54,7 @@ Proof.
     cbn [sp_step s_rest]. split; [reflexivity|]. split; [reflexivity|].
     apply (R_between P stream N pre [] post id); [exact Hs | cbn; lia | constructor].
   - cbn [length] in Hn. replace (N <=? id)%nat with false by (symmetry; apply Nat.leb_gt; lia).
-    apply Forall_cons_iff in Hok as [[He1 He2] Hokr].
+    apply Forall_cons_iff in Hok as [He2 Hokr]. unfold okev in He2.
     cbn [sp_step s_rest].
     rewrite layout_from_cons in Hs.
     set (pad := pad_at P (length pre)) in *.
@@ -69,7 +70,6 @@ Proof.
     + rewrite Hs, <- !app_assoc. rewrite !app_length, zeros_length, Hh.
       replace (length pre + (pad + hdr_len) + length e)%nat with (length pre + pad + hdr_len + length e)%nat by lia. reflexivity.
     + lia.
-    + intros ->. cbn in He1. lia.
     + exact Hokr.
 Qed.
 
@@ -85,7 +85,7 @@ Theorem rd_step_sim P stream N st s o :
   let '(o2, b2, s') := sp_step s o in
   o1 = o2 /\ b1 = b2 /\ Rsim P stream N st' s'.
 Proof.
-  intros R. destruct R as [pre rest post id Hs Hn Hok | pre b rest post id Hs Hn Hb Hok]; destruct o as [|n].
+  intros R. destruct R as [pre rest post id Hs Hn Hok | pre b rest post id Hs Hn Hok]; destruct o as [|n].
   - (* Next between events *)
     unfold rd_step. cbn [r_pos r_left r_id]. rewrite Nat.add_0_r.
     exact (next_at P stream N pre rest post id Hs Hn Hok).
@@ -114,10 +114,9 @@ Proof.
       assert (Hl2: length (skipn n b) = (length b - n)%nat) by apply skipn_length.
       replace (length pre + n)%nat with (length (pre ++ firstn n b)) by (rewrite app_length, Hl; reflexivity).
       rewrite <- Hl2.
-      apply (R_inside P stream N (pre ++ firstn n b) (skipn n b) rest post id); [|exact Hn | | exact Hok].
-      * rewrite Hs, <- !app_assoc. f_equal. rewrite (app_assoc (firstn n b)), firstn_skipn.
-        rewrite app_length, Hl, Hl2. replace (length pre + n + (length b - n))%nat with (length pre + length b)%nat by lia. reflexivity.
-      * intros X. rewrite X in Hl2. cbn in Hl2. lia.
+      apply (R_inside P stream N (pre ++ firstn n b) (skipn n b) rest post id); [|exact Hn | exact Hok].
+      rewrite Hs, <- !app_assoc. f_equal. rewrite (app_assoc (firstn n b)), firstn_skipn.
+      rewrite app_length, Hl, Hl2. replace (length pre + n + (length b - n))%nat with (length pre + length b)%nat by lia. reflexivity.
 Qed.
 
 Theorem rd_run_sim P stream N : forall ops st s,
@@ -129,7 +128,7 @@ Proof.
   destruct H as (-> & -> & R'). rewrite (IH st' s' R'). reflexivity.
 Qed.
 
-(* For every list of (non-empty) events, every page payload size, whatever precedes or follows them in the
+(* For every list of events (also events without contents), every page payload size, whatever precedes or follows them in the
    stream, and EVERY sequence of Next / Read(n) calls: the reader working on the bytes reports the same sizes
    and returns the same bytes as the same calls on the list of events - every event once, in order, a Read never
    crosses the end of its event, skipped rests are really skipped, size 0 exactly at the end. *)
